@@ -53,6 +53,9 @@ import (
 
 const dbName = "impdb"
 
+// noTime marks an uploaded time value for which no conversion to microseconds exists
+const noTime = math.MinInt64
+
 var logger = zerolog.Nop()
 
 type pqSpec struct {
@@ -890,10 +893,15 @@ func buildTimeCol(name string, sc *scenario, n int) (arrow.Field, arrow.Array, [
 		return arrow.Field{Name: name, Type: arrow.PrimitiveTypes.Int8}, b.NewArray(), exp, inexact
 	case "uint64":
 		b := array.NewUint64Builder(pool)
-		for _, v := range vals {
-			b.Append(uint64(v))
+		for k, v := range vals {
+			if sc.Pq.Range == "top" {
+				b.Append(uint64(1)<<63 + uint64(k)) // no int64 can hold it: the file must be refused
+				exp[k] = noTime
+			} else {
+				b.Append(uint64(v))
+			}
 		}
-		return arrow.Field{Name: name, Type: arrow.PrimitiveTypes.Uint64}, b.NewArray(), exp, inexact
+		return arrow.Field{Name: name, Type: arrow.PrimitiveTypes.Uint64}, b.NewArray(), exp, inexact && sc.Pq.Range != "top"
 	case "uint32":
 		b := array.NewUint32Builder(pool)
 		for _, v := range vals {
@@ -1187,7 +1195,7 @@ func main() {
 		perRowExp := make([][]string, len(tb.times))
 		for k := range tb.times {
 			parts := []string{}
-			if k == tb.badRow {
+			if k == tb.badRow || tb.times[k] == noTime {
 				parts = append(parts, "t:<no defined conversion>")
 			} else if tb.inexact {
 				parts = append(parts, "t:*")
